@@ -54,8 +54,7 @@ Proof. vm_compute. split; reflexivity. Qed.
 (* ------------------------------------------------------------------------------------------------
    2. bytes_eq_spec: goja's arithmetic = the specification, on the new state (all bytes), the result
    and the touched ranges, for every state satisfying the invariant and every operation inside the
-   explicit guard.  The guard excludes the open finding C17-N10 (Export() of a view on a detached
-   buffer) and one more region: set(typedArray) between DIFFERENT element
+   explicit guard.  The guard excludes exactly one region: set(typedArray) between DIFFERENT element
    kinds on the SAME buffer (goja copies in place in an address-dependent order, the spec from a clone:
    the order of the touches differs; equality of the bytes is proved for distinct buffers and covered
    by the correspondence runs, incl. the all-pairs corpus sweep, for overlapping ones). *)
@@ -69,14 +68,6 @@ Example guard_examples :
   fst (fst (step MI st_ov (OSetTyped 0 1 (num 0 None)))) = fst (fst (step MS st_ov (OSetTyped 0 1 (num 0 None)))) /\
   step MI st_ov (OSetTyped 0 1 (num 0 None)) <> step MS st_ov (OSetTyped 0 1 (num 0 None)).
 Proof. exact ProofsEq.guard_examples. Qed.
-
-(* the open divergence, by witness: Export() of a view on a detached buffer *)
-Theorem export_detached_refuted :
-  snd (fst (step MI st_n10 (OGoExport 0))) = RExp 4 2 (-1) /\
-  snd (fst (step MI st_n10 (OGoExport 1))) = RPanic /\
-  snd (fst (step MS st_n10 (OGoExport 0))) = RExp 0 0 7 /\
-  snd (fst (step MS st_n10 (OGoExport 1))) = RExp 0 0 7.
-Proof. exact Proofs.export_detached_refuted. Qed.
 
 (* goja's integer element conversions (floatToInt64Mod32 + narrowing) are the modular ones, for every
    float incl. |x| >= 2^63 (F10 repaired) *)
@@ -142,7 +133,6 @@ Print Assumptions inv_step.
 Print Assumptions touched_in_view_history.
 Print Assumptions bytes_eq_spec.
 Print Assumptions int_conv_eq.
-Print Assumptions export_detached_refuted.
 Print Assumptions raw_roundtrip.
 Print Assumptions raw_roundtrip_bits.
 Print Assumptions bits64_roundtrip.
